@@ -91,7 +91,8 @@ def strategy_(draw, tier):
         tree = {"r1": {"t": "d", "ch": dict(items[:cut])}, "r2": {"t": "d", "ch": dict(items[cut:])}, "r3": {"t": "d", "ch": {}}}
         roots = draw(st.lists(st.sampled_from(["r1", "r2", "r3", ".", "r1 depth 1", "r2 bfs"]), min_size=2, max_size=4))
     return {"tree": tree, "path": path, "cols": cols, "where": where, "roots": roots,
-            "limit": draw(st.sampled_from([None, None, None, 1, 3])) if path in ("streamed", "ordered") else None}
+            # a LIMIT on group rows too: which groups survive must not differ from one run (format) to the next
+            "limit": draw(st.sampled_from([None, None, None, 1, 3])) if path in ("streamed", "ordered", "grouped") else None}
 
 
 def strategy(tier):
